@@ -817,8 +817,7 @@ func c09Programs(r *RNG, count int) []c09Prog {
 	bin("mul-u12", "uint12", "uint12", "*")
 	bin("mul-i24", "int24", "int24", "*")
 	bin("mul-u32", "uint32", "uint32", "*")
-	bin("div-i8", "int8", "int8", "/")
-	bin("mod-u7", "uint7", "uint7", "%")
+	// divisions and modulos are handled by the structured family c09Divs (stand-alone-divider discriminator)
 	// exhaustive adder widths that are not 2^k or 2^k+1 (GMW: Kogge-Stone stage count)
 	bin("add-u6", "uint6", "uint6", "+")
 	bin("add-u7", "uint7", "uint7", "+")
@@ -834,7 +833,6 @@ func c09Programs(r *RNG, count int) []c09Prog {
 	add("two-results", "package main\nfunc main(a, b uint6) (uint6, bool) {\n    return a * b, a == b\n}\n")
 	add("mul-add-u16", "package main\nfunc main(a, b uint16) uint16 {\n    return a * b + a\n}\n")
 	add("mul-u40", "package main\nfunc main(a, b uint40) uint40 {\n    return a * b\n}\n")
-	add("div-u16", "package main\nfunc main(a, b uint16) uint16 {\n    return a / b + a % b\n}\n")
 	add("unused-arg", "package main\nfunc main(a, b uint4) uint4 {\n    return a\n}\n")
 	add("const-result", "package main\nfunc main(a, b uint4) uint8 {\n    return 42\n}\n")
 	add("neg-not", "package main\nfunc main(a, b int6) int6 {\n    return -a ^ b\n}\n")
@@ -851,6 +849,10 @@ func c09Programs(r *RNG, count int) []c09Prog {
 	files, _ := filepath.Glob(filepath.Join(repoRoot(), "testsuite", "lang", "*.mpcl"))
 	sort.Strings(files)
 	for _, f := range files {
+		switch filepath.Base(f) {
+		case "divi.mpcl", "divu.mpcl", "modi.mpcl", "modu.mpcl":
+			continue // int64/uint64 a / b, a % b: covered by c09Divs
+		}
 		ps = append(ps, c09Prog{Name: "testsuite/lang/" + filepath.Base(f), File: f})
 	}
 	// random expression programs
@@ -869,7 +871,7 @@ func c09Programs(r *RNG, count int) []c09Prog {
 					return "b"
 				}
 			}
-			ops := []string{"+", "-", "*", "*", "&", "|", "^", "/", "%"}
+			ops := []string{"+", "-", "*", "*", "&", "|", "^", "-", "+"}
 			return "(" + gen(depth-1) + " " + ops[r.Intn(len(ops))] + " " + gen(depth-1) + ")"
 		}
 		e := gen(r.Range(1, 3))
@@ -1301,6 +1303,395 @@ func c09Deep(c *Ctx) error {
 	return nil
 }
 
+// ---------------------------------------------------------------- divisions
+
+// c09Divs: programs made of one or more divisions/modulos of (different)
+// operand widths, each on its own pair of arguments and returned as its own
+// result.  Because the structure is known, a Yao-vs-GMW difference is
+// discriminated without any list: the same operands are fed to the division
+// compiled ALONE at that width under GMW; if the program's GMW result equals the
+// stand-alone divider's result, the difference is the known inaccuracy of the
+// GMW divider (or its known divide-by-zero convention); if it differs from the
+// stand-alone divider too, the builder's result depends on its context
+// (c09:prog:division-context-dependent) and that is a new failure.
+type c09DivSpec struct {
+	Op     string `json:"op"`
+	Signed bool   `json:"signed"`
+	W      int    `json:"w"`
+}
+
+func (d c09DivSpec) typ() string {
+	if d.Signed {
+		return fmt.Sprintf("int%d", d.W)
+	}
+	return fmt.Sprintf("uint%d", d.W)
+}
+
+func (d c09DivSpec) tag() string {
+	if d.Signed {
+		return fmt.Sprintf("iw%d", d.W)
+	}
+	return fmt.Sprintf("uw%d", d.W)
+}
+
+func c09DivSource(specs []c09DivSpec) string {
+	var args, rets, exprs []string
+	for i, d := range specs {
+		args = append(args, fmt.Sprintf("a%d, b%d %s", i, i, d.typ()))
+		rets = append(rets, d.typ())
+		exprs = append(exprs, fmt.Sprintf("a%d %s b%d", i, d.Op, i))
+	}
+	ret := strings.Join(rets, ", ")
+	if len(rets) > 1 {
+		ret = "(" + ret + ")"
+	}
+	return fmt.Sprintf("package main\nfunc main(%s) %s {\n    return %s\n}\n",
+		strings.Join(args, ", "), ret, strings.Join(exprs, ", "))
+}
+
+type c09DivReplay struct {
+	Seed      uint64       `json:"seed"`
+	Specs     []c09DivSpec `json:"divisions"`
+	Source    string       `json:"source"`
+	Config    string       `json:"config"`
+	Component int          `json:"component"`
+	A         string       `json:"dividend,omitempty"`
+	B         string       `json:"divisor,omitempty"`
+	Inputs    string       `json:"inputs,omitempty"`
+	Got       string       `json:"got,omitempty"`
+	Baseline  string       `json:"yao_baseline,omitempty"`
+	Alone     string       `json:"stand_alone_gmw_divider,omitempty"`
+	Want      string       `json:"arithmetic,omitempty"`
+	Failing   int          `json:"failing_vectors,omitempty"`
+	Vectors   int          `json:"vectors,omitempty"`
+	Error     string       `json:"error,omitempty"`
+}
+
+func c09BitsToUint(b []bool) uint64 {
+	var v uint64
+	for i, x := range b {
+		if x {
+			v |= 1 << uint(i)
+		}
+	}
+	return v
+}
+
+func c09Divs(c *Ctx) error {
+	r := c.rng.Fork()
+	widths := []int{3, 5, 6, 8, 9, 12, 16}
+	var progs [][]c09DivSpec
+	one := func(op string, signed bool, w int) c09DivSpec { return c09DivSpec{Op: op, Signed: signed, W: w} }
+	ops := []string{"/", "%"}
+	// single divisions (the stand-alone dividers themselves; uint7 % is exhaustive)
+	progs = append(progs, []c09DivSpec{one("%", false, 7)}, []c09DivSpec{one("/", true, 8)},
+		[]c09DivSpec{one("/", false, 16), one("%", false, 16)})
+	// two divisions of different widths, both orders, in every run
+	core := [][2]int{{12, 6}, {6, 12}, {9, 3}, {3, 9}, {16, 8}, {8, 16}, {5, 6}, {6, 5}, {9, 8}, {8, 12}}
+	for k, p := range core {
+		progs = append(progs, []c09DivSpec{one(ops[k%2], false, p[0]), one(ops[(k/2)%2], false, p[1])})
+	}
+	for k, p := range [][2]int{{12, 6}, {6, 9}, {8, 3}, {5, 16}} {
+		progs = append(progs, []c09DivSpec{one(ops[k%2], true, p[0]), one(ops[(k+1)%2], true, p[1])})
+	}
+	// seed dependent: more pairs, mixed signs, sometimes three divisions
+	extra := c.N(6, 0)
+	if c.Thorough() {
+		for _, signed := range []bool{false, true} {
+			for _, w1 := range widths {
+				for _, w2 := range widths {
+					if w1 != w2 {
+						progs = append(progs, []c09DivSpec{one(ops[r.Intn(2)], signed, w1), one(ops[r.Intn(2)], signed, w2)})
+					}
+				}
+			}
+		}
+		progs = append(progs, []c09DivSpec{one("/", true, 64)}, []c09DivSpec{one("/", false, 64)},
+			[]c09DivSpec{one("%", true, 64)}, []c09DivSpec{one("%", false, 64)})
+		extra = 20
+	}
+	for k := 0; k < extra; k++ {
+		n := 2 + r.Intn(2)
+		var sp []c09DivSpec
+		for len(sp) < n {
+			sp = append(sp, one(ops[r.Intn(2)], r.Bool(), widths[r.Intn(len(widths))]))
+		}
+		if sp[0].W == sp[1].W {
+			sp[1].W = widths[(r.Intn(len(widths)-1)+1+indexOf(widths, sp[0].W))%len(widths)]
+		}
+		progs = append(progs, sp)
+	}
+	var cfgs []c09Cfg
+	for _, prune := range []bool{false, true} {
+		thrs := []int{0}
+		if c.Thorough() {
+			thrs = []int{0, 8, 21, 64}
+		}
+		for _, thr := range thrs {
+			for _, tgt := range []utils.Target{utils.TargetYao, utils.TargetGMW} {
+				cfgs = append(cfgs, c09Cfg{prune, thr, tgt})
+			}
+		}
+	}
+	devnull, _ := os.OpenFile(os.DevNull, os.O_WRONLY, 0)
+	saved := os.Stdout
+	if devnull != nil {
+		os.Stdout = devnull
+		defer func() { os.Stdout = saved; devnull.Close() }()
+	}
+	eval := func(circ *circuit.Circuit, x []bool) ([]bool, string) {
+		var out []bool
+		msg := c09Try(func() {
+			res, err := circ.Compute(SplitInputs(circ, x))
+			if err != nil {
+				panic(err)
+			}
+			out = JoinOutputs(circ, res)
+		})
+		return out, msg
+	}
+	alone := map[string]*circuit.Circuit{}
+	standAlone := func(d c09DivSpec) (*circuit.Circuit, string) {
+		k := d.Op + d.tag()
+		if cc, ok := alone[k]; ok {
+			return cc, ""
+		}
+		cc, e := c09CompileProg(c09Prog{Name: "alone-" + k, Src: c09DivSource([]c09DivSpec{d})},
+			c09Cfg{false, 0, utils.TargetGMW})
+		if e == "" {
+			alone[k] = cc
+		}
+		return cc, e
+	}
+	for _, specs := range progs {
+		src := c09DivSource(specs)
+		name := ""
+		total := 0
+		for _, d := range specs {
+			name += d.Op + d.tag()
+			total += 2 * d.W
+			c.Hist("div:width:" + d.tag())
+		}
+		c.Hist(fmt.Sprintf("div:divisions-per-program:%d", len(specs)))
+		prog := c09Prog{Name: "div:" + name, Src: src}
+		base, berr := c09CompileProg(prog, cfgs[0])
+		if berr != "" {
+			c.Fail("c09:prog:division:does-not-compile", "a division program does not compile under the default configuration",
+				c09DivReplay{Seed: c.Seed, Specs: specs, Source: src, Config: cfgs[0].String(), Error: berr})
+			continue
+		}
+		// input vectors
+		var xs [][]bool
+		if total <= 16 {
+			for v := 0; v < 1<<uint(total); v++ {
+				x := make([]bool, total)
+				for b := 0; b < total; b++ {
+					x[b] = v>>uint(b)&1 == 1
+				}
+				xs = append(xs, x)
+			}
+			c.Hist("div:exhaustive")
+		} else {
+			for k := 0; k < 96; k++ {
+				var x []bool
+				for _, d := range specs {
+					a := make([]bool, d.W)
+					b := make([]bool, d.W)
+					mode := k % 12
+					if k >= 48 {
+						mode = 11
+					}
+					for i := 0; i < d.W; i++ {
+						switch mode {
+						case 0: // max / small
+							a[i], b[i] = true, i == 0 || (i < 4 && r.Bool())
+						case 1: // max / max
+							a[i], b[i] = true, true
+						case 2: // x / 0
+							a[i], b[i] = r.Bool(), false
+						case 3: // 0 / x
+							a[i], b[i] = false, r.Bool()
+						case 4: // large / 1
+							a[i], b[i] = i != 0 || r.Bool(), i == 0
+						case 5: // large / mid
+							a[i], b[i] = i >= d.W/2 || r.Bool(), i < (d.W+1)/2 && (i == 0 || r.Bool())
+						default:
+							a[i], b[i] = r.Bool(), r.Bool()
+						}
+					}
+					x = append(x, a...)
+					x = append(x, b...)
+				}
+				xs = append(xs, x)
+			}
+			c.Hist("div:96-vectors")
+		}
+		split := func(out []bool) [][]bool {
+			var res [][]bool
+			ofs := 0
+			for _, d := range specs {
+				res = append(res, out[ofs:ofs+d.W])
+				ofs += d.W
+			}
+			return res
+		}
+		operands := func(x []bool, i int) ([]bool, []bool) {
+			ofs := 0
+			for k := 0; k < i; k++ {
+				ofs += 2 * specs[k].W
+			}
+			w := specs[i].W
+			return x[ofs : ofs+w], x[ofs+w : ofs+2*w]
+		}
+		baseOut := make([][][]bool, len(xs))
+		for xi, x := range xs {
+			out, msg := eval(base, x)
+			if msg != "" {
+				return fmt.Errorf("division program %s: Compute on the baseline: %s", name, msg)
+			}
+			baseOut[xi] = split(out)
+		}
+		c.Eval(name+"|"+cfgs[0].String(), true)
+		// baseline against arithmetic (unsigned, and signed quotients without overflow)
+		for i, d := range specs {
+			if d.Signed && d.Op == "%" {
+				continue
+			}
+			for xi, x := range xs {
+				a, b := operands(x, i)
+				av, bv := c09BitsToUint(a), c09BitsToUint(b)
+				if bv == 0 {
+					continue
+				}
+				var want uint64
+				if !d.Signed {
+					want = av / bv
+					if d.Op == "%" {
+						want = av % bv
+					}
+				} else {
+					sa, sb := int64(av), int64(bv)
+					if a[d.W-1] {
+						sa -= 1 << uint(d.W)
+					}
+					if b[d.W-1] {
+						sb -= 1 << uint(d.W)
+					}
+					if sb == -1 && sa == -(1<<uint(d.W-1)) {
+						continue
+					}
+					want = uint64(sa/sb) & (1<<uint(d.W) - 1)
+				}
+				if got := c09BitsToUint(baseOut[xi][i]); got != want {
+					c.Fail("c09:prog:division:yao-differs-from-arithmetic:"+d.tag(),
+						"the Yao (default configuration) circuit of a division differs from integer arithmetic",
+						c09DivReplay{Seed: c.Seed, Specs: specs, Source: src, Config: cfgs[0].String(), Component: i,
+							A: fmt.Sprint(av), B: fmt.Sprint(bv), Inputs: bitsString(x),
+							Got: fmt.Sprint(got), Want: fmt.Sprint(want)})
+					break
+				}
+			}
+		}
+		for _, k := range cfgs[1:] {
+			ckey := fmt.Sprintf("prune=%v:thr=%d:%s", k.prune, k.thr, k.tgt)
+			circ, e := c09CompileProg(prog, k)
+			c.Eval(name+"|"+k.String(), true)
+			c.Hist("div-config:" + ckey)
+			if e != "" {
+				key := "c09:prog:division:compiles-under-some-configurations-only:" + ckey
+				if strings.HasPrefix(e, "panic:") {
+					key = "c09:prog:division:compiler-panics:" + ckey
+				}
+				c.Fail(key, "a program with divisions of different widths compiles under the default configuration and not under this one",
+					c09DivReplay{Seed: c.Seed, Specs: specs, Source: src, Config: k.String(), Error: e})
+				continue
+			}
+			type cls struct {
+				key, what string
+				rp        c09DivReplay
+				n         int
+			}
+			found := map[string]*cls{}
+			note := func(key, what string, rp c09DivReplay) {
+				if f, ok := found[key]; ok {
+					f.n++
+					return
+				}
+				found[key] = &cls{key, what, rp, 1}
+			}
+			for xi, x := range xs {
+				out, msg := eval(circ, x)
+				if msg != "" {
+					note("c09:prog:division:compute-fails:"+ckey, "Circuit.Compute fails on the compiled division program",
+						c09DivReplay{Seed: c.Seed, Specs: specs, Source: src, Config: k.String(), Inputs: bitsString(x), Error: msg})
+					continue
+				}
+				got := split(out)
+				for i, d := range specs {
+					a, b := operands(x, i)
+					rp := c09DivReplay{Seed: c.Seed, Specs: specs, Source: src, Config: k.String(), Component: i,
+						A: fmt.Sprint(c09BitsToUint(a)), B: fmt.Sprint(c09BitsToUint(b)), Inputs: bitsString(x),
+						Got: fmt.Sprint(c09BitsToUint(got[i])), Baseline: fmt.Sprint(c09BitsToUint(baseOut[xi][i])), Vectors: len(xs)}
+					same := bitsString(got[i]) == bitsString(baseOut[xi][i])
+					if k.tgt == utils.TargetYao {
+						if !same {
+							note("c09:prog:division:output-differs:"+ckey,
+								"a division program computes different outputs under two Yao configurations", rp)
+						}
+						continue
+					}
+					sa, e := standAlone(d)
+					if e != "" {
+						rp.Error = e
+						note("c09:prog:division:stand-alone-divider-does-not-compile:"+d.tag(), "the division alone does not compile for GMW", rp)
+						continue
+					}
+					ax := append(append([]bool(nil), a...), b...)
+					so, msg := eval(sa, ax)
+					if msg != "" {
+						rp.Error = msg
+						note("c09:prog:division:stand-alone-divider-compute-fails:"+d.tag(), "Compute fails on the stand-alone GMW divider", rp)
+						continue
+					}
+					rp.Alone = fmt.Sprint(c09BitsToUint(so))
+					switch {
+					case bitsString(so) != bitsString(got[i]):
+						note("c09:prog:division-context-dependent:"+d.tag()+":"+ckey,
+							"a division inside a program with other divisions computes something else than the same division compiled alone for GMW: the divider builder depends on its context", rp)
+					case same:
+					case c09BitsToUint(b) == 0:
+						note("c09:prog:division:known-divide-by-zero-difference:"+d.tag()+":Yao-vs-GMW",
+							"division by zero: the GMW divider (also stand-alone) and the Yao divider return different values", rp)
+					default:
+						note("c09:prog:division:known-divider-inaccuracy:"+d.tag()+":Yao-vs-GMW",
+							"the GMW Goldschmidt divider (also stand-alone, same operands) is wrong for this non-zero divisor", rp)
+					}
+				}
+			}
+			var keys []string
+			for kk := range found {
+				keys = append(keys, kk)
+			}
+			sort.Strings(keys)
+			for _, kk := range keys {
+				f := found[kk]
+				f.rp.Failing = f.n
+				c.Fail(f.key, f.what, f.rp)
+			}
+		}
+	}
+	return nil
+}
+
+func indexOf(l []int, v int) int {
+	for i, x := range l {
+		if x == v {
+			return i
+		}
+	}
+	return 0
+}
+
 func runC09(c *Ctx) error {
 	t0 := time.Now()
 	if err := c09Graphs(c); err != nil {
@@ -1311,8 +1702,12 @@ func runC09(c *Ctx) error {
 		return err
 	}
 	t2 := time.Now()
+	if err := c09Divs(c); err != nil {
+		return err
+	}
+	t3 := time.Now()
 	err := c09Progs(c)
-	c.Note("graphs %.1fs, deep chains %.1fs, programs %.1fs", t1.Sub(t0).Seconds(), t2.Sub(t1).Seconds(), time.Since(t2).Seconds())
+	c.Note("graphs %.1fs, deep chains %.1fs, divisions %.1fs, programs %.1fs", t1.Sub(t0).Seconds(), t2.Sub(t1).Seconds(), t3.Sub(t2).Seconds(), time.Since(t3).Seconds())
 	return err
 }
 
